@@ -81,6 +81,7 @@ CONSTANTS
     BalSet,     \* initial balances of the payers
     LimitSet, EncSet, FormSet, OsReqSet, ClientSet,   \* request inputs tried
     TokSet, DsContSet, OsCodeSet, FeeSet,             \* registry inputs tried
+    DsEditSet, OsEditSet, TreasTry,                   \* ids tried by the edits, treasuries tried
     HowSet, FlipSet, StepSet                          \* environment moves tried: Break kinds, SetIBC values, handshake steps
 
 DsIds  == 1..MaxDs
@@ -120,7 +121,7 @@ NoMeta == [os |-> 0, client |-> ""]
 NoRx   == [client |-> "", result |-> ""]
 NoDs   == [present |-> FALSE, owner |-> "", name |-> "", desc |-> "", file |-> "", fee |-> 0, tre |-> ""]
 NoOs   == [present |-> FALSE, owner |-> "", name |-> "", desc |-> "", file |-> "", schema |-> "", url |-> ""]
-NoInp  == [kind |-> "none", id |-> 0, s |-> "", owner |-> "", name |-> "", desc |-> "", cont |-> ""]
+NoInp  == [kind |-> "none", id |-> 0, s |-> "", owner |-> "", name |-> "", desc |-> "", cont |-> "", schema |-> "", url |-> ""]
 
 -----------------------------------------------------------------------------
 (* Content tokens.  Data-source executables: "e1","e2",.. plain; "gz1" is   *)
@@ -133,6 +134,7 @@ NoInp  == [kind |-> "none", id |-> 0, s |-> "", owner |-> "", name |-> "", desc 
 Unz(c)     == CASE c = "gz1" -> "e1" [] c = "gzw1" -> "w1" [] c = "gzdnm" -> "dnm" [] OTHER -> c
 BadCont(c) == c \in {"empty", "big", "gzbad", "notwasm"}
 Mod(old, new) == IF new = "dnm" THEN old ELSE new
+BadTok(t) == t = "long"                       \* a name longer than MaxNameLength: refused by ValidateBasic
 
 Runnable(f) == f \in {"w3", "w1", "wnil", "wfail"}
 Srcs(f)     == IF f = "w3" THEN <<1, 2, 3>> ELSE <<1>>
@@ -304,9 +306,9 @@ RegStill == /\ ackOut' = "none"
             /\ UNCHANGED <<ibcOn, cstate, ibcReq, ibcResp>>
 
 CreateDS(s, owner, name, desc, cont, fee, t) ==
-    /\ inp' = [kind |-> "CreateDS", id |-> nds + 1, s |-> s, owner |-> owner, name |-> name, desc |-> desc, cont |-> cont]
+    /\ inp' = [kind |-> "CreateDS", id |-> nds + 1, s |-> s, owner |-> owner, name |-> name, desc |-> desc, cont |-> cont, schema |-> "", url |-> ""]
     /\ RegStill /\ UNCHANGED <<req, os, nos>>
-    /\ IF ~BadCont(cont) /\ Unz(cont) # "dnm" /\ nds < MaxDs
+    /\ IF ~BadCont(cont) /\ ~BadTok(name) /\ Unz(cont) # "dnm" /\ nds < MaxDs
        THEN /\ nds' = nds + 1
             /\ ds' = [ds EXCEPT ![nds + 1] = [present |-> TRUE, owner |-> owner, name |-> name, desc |-> desc,
                                               file |-> Unz(cont), fee |-> fee, tre |-> t]]
@@ -314,9 +316,9 @@ CreateDS(s, owner, name, desc, cont, fee, t) ==
        ELSE /\ out' = "rej" /\ UNCHANGED <<ds, nds>>
 
 EditDS(s, d, owner, name, desc, cont, fee, t) ==
-    /\ inp' = [kind |-> "EditDS", id |-> d, s |-> s, owner |-> owner, name |-> name, desc |-> desc, cont |-> cont]
+    /\ inp' = [kind |-> "EditDS", id |-> d, s |-> s, owner |-> owner, name |-> name, desc |-> desc, cont |-> cont, schema |-> "", url |-> ""]
     /\ RegStill /\ UNCHANGED <<req, os, nos, nds>>
-    /\ IF d \in DsIds /\ ds[d].present /\ s = ds[d].owner /\ ~BadCont(cont)
+    /\ IF d \in DsIds /\ ds[d].present /\ s = ds[d].owner /\ ~BadCont(cont) /\ ~BadTok(name)
        THEN /\ ds' = [ds EXCEPT ![d] = [present |-> TRUE, owner |-> owner, name |-> Mod(@.name, name),
                                         desc |-> Mod(@.desc, desc), file |-> Mod(@.file, Unz(cont)),
                                         fee |-> fee, tre |-> t]]
@@ -324,9 +326,9 @@ EditDS(s, d, owner, name, desc, cont, fee, t) ==
        ELSE /\ out' = "rej" /\ UNCHANGED ds
 
 CreateOS(s, owner, name, desc, schema, url, code) ==
-    /\ inp' = [kind |-> "CreateOS", id |-> nos + 1, s |-> s, owner |-> owner, name |-> name, desc |-> desc, cont |-> code]
+    /\ inp' = [kind |-> "CreateOS", id |-> nos + 1, s |-> s, owner |-> owner, name |-> name, desc |-> desc, cont |-> code, schema |-> schema, url |-> url]
     /\ RegStill /\ UNCHANGED <<req, ds, nds>>
-    /\ IF ~BadCont(code) /\ Unz(code) # "dnm" /\ nos < MaxOs
+    /\ IF ~BadCont(code) /\ ~BadTok(name) /\ Unz(code) # "dnm" /\ nos < MaxOs
        THEN /\ nos' = nos + 1
             /\ os' = [os EXCEPT ![nos + 1] = [present |-> TRUE, owner |-> owner, name |-> name, desc |-> desc,
                                               file |-> Unz(code), schema |-> schema, url |-> url]]
@@ -336,9 +338,9 @@ CreateOS(s, owner, name, desc, schema, url, code) ==
 \* the code of a script is looked up when a request is prepared AND when it is resolved: a stored request's
 \* outcome class follows the script's current code
 EditOS(s, k, owner, name, desc, schema, url, code) ==
-    /\ inp' = [kind |-> "EditOS", id |-> k, s |-> s, owner |-> owner, name |-> name, desc |-> desc, cont |-> code]
+    /\ inp' = [kind |-> "EditOS", id |-> k, s |-> s, owner |-> owner, name |-> name, desc |-> desc, cont |-> code, schema |-> schema, url |-> url]
     /\ RegStill /\ UNCHANGED <<ds, nds, nos>>
-    /\ IF k \in OsIds /\ os[k].present /\ s = os[k].owner /\ ~BadCont(code)
+    /\ IF k \in OsIds /\ os[k].present /\ s = os[k].owner /\ ~BadCont(code) /\ ~BadTok(name)
        THEN /\ os' = [os EXCEPT ![k] = [present |-> TRUE, owner |-> owner, name |-> Mod(@.name, name),
                                         desc |-> Mod(@.desc, desc), file |-> Mod(@.file, Unz(code)),
                                         schema |-> Mod(@.schema, schema), url |-> Mod(@.url, url)]]
@@ -367,12 +369,12 @@ INext ==
     \/ \E dt \in DtSet : IEndBlock(dt)
     \/ \E b \in FlipSet : SetIBC(b)
     \/ \E c \in Chan, how \in HowSet : Break(c, how)
-    \/ \E s \in Acct, o \in Acct, n \in TokSet, d \in TokSet, c \in DsContSet, f \in FeeSet, t \in Treas :
-          \/ CreateDS(s, o, n, d, c, f, t)
-          \/ \E i \in 1..(MaxDs + 1) : EditDS(s, i, o, n, d, c, f, t)
+    \/ \E s \in Acct, o \in Acct, n \in TokSet, c \in DsContSet, f \in FeeSet, t \in TreasTry :
+          \/ CreateDS(s, o, n, n, c, f, t)
+          \/ \E i \in DsEditSet : EditDS(s, i, o, n, n, c, f, t)
     \/ \E s \in Acct, o \in Acct, n \in TokSet, c \in OsCodeSet :
           \/ CreateOS(s, o, n, n, n, n, c)
-          \/ \E i \in 1..(MaxOs + 1) : EditOS(s, i, o, n, n, n, n, c)
+          \/ \E i \in OsEditSet : EditOS(s, i, o, n, n, n, n, c)
     \/ \E step \in StepSet, order \in {"UNORDERED", "ORDERED"}, ver \in {"bandchain-1", "", "v2"} :
           ChanOpen(step, order, ver)
 
@@ -497,7 +499,10 @@ OwnerOnlyA ==
     /\ \A k \in OsIds : (os[k].present /\ os'[k] # os[k]) =>
             /\ inp'.kind = "EditOS" /\ inp'.id = k /\ inp'.s = os[k].owner
             /\ os'[k].owner = inp'.owner
-            /\ (inp'.name = "dnm" => os'[k].name = os[k].name /\ os'[k].schema = os[k].schema /\ os'[k].url = os[k].url)
+            /\ (inp'.name = "dnm" => os'[k].name = os[k].name) /\ (inp'.name # "dnm" => os'[k].name = inp'.name)
+            /\ (inp'.desc = "dnm" => os'[k].desc = os[k].desc)
+            /\ (inp'.schema = "dnm" => os'[k].schema = os[k].schema) /\ (inp'.schema # "dnm" => os'[k].schema = inp'.schema)
+            /\ (inp'.url = "dnm" => os'[k].url = os[k].url) /\ (inp'.url # "dnm" => os'[k].url = inp'.url)
             /\ (Unz(inp'.cont) = "dnm" => os'[k].file = os[k].file)
             /\ (Unz(inp'.cont) # "dnm" => os'[k].file = Unz(inp'.cont))
     /\ nds' \in {nds, nds + 1} /\ nos' \in {nos, nos + 1}
